@@ -576,6 +576,33 @@ def register_legacy_chunk(R):
     R.contract(f'{LRFC}.tell', props=['C01'], params={}, returns=Int, top_level=True, ensures=lambda c: {'tell_is_position_in_window': c.result == c.oldf('_amount_read')})
     R.contract(f'{LRFC}.__len__', props=['C01'], params={}, returns=Int, top_level=True, ensures=lambda c: {'length_is_window_size': c.result == c.oldf('_size')})
 
+    # the constructor establishes the class invariant the methods above start from: the window is
+    # [start_byte, min(start_byte + chunk_size, full_file_size)), the file is positioned at its start, nothing read yet
+    def init_setup(eng, st, args, self_val):
+        g = R.stream_state(st, args['fileobj'])
+        st.assume(z3.And(args['start_byte'] >= 0, args['chunk_size'] >= 0, args['full_file_size'] >= args['start_byte'],
+                         g['len'] == args['full_file_size']))
+
+    def init_post(c):
+        g = c.new.st.ghost.get(('stream', c.a_fileobj.label))
+        size = c.newf('_size')
+        return {
+            'window_is_the_requested_chunk_cut_at_the_end_of_the_file': size == z3.If(
+                c.a_full_file_size - c.a_start_byte < c.a_chunk_size, c.a_full_file_size - c.a_start_byte, c.a_chunk_size),
+            'file_positioned_at_the_start_of_the_window': g['pos'] == c.a_start_byte if g is not None else B(False),
+            'starts_unread_with_the_given_callback_and_switch': z3.And(
+                c.newf('_amount_read') == 0, c.newf('_start_byte') == c.a_start_byte, B(c.newf('_fileobj') is c.a_fileobj),
+                B(c.newf('_callback') is c.a_callback), b2z(c.newf('_callback_enabled')) == b2z(c.a_enable_callback)),
+        }
+
+    R.mark_inline(f'{LRFC}._calculate_file_size')
+    R.contract(f'{LRFC}.__init__', props=['C01', 'C09'], top_level=True,
+               params=dict(fileobj=ExtT('fileobj_or_name'), start_byte=Int, chunk_size=Int, full_file_size=Int,
+                           callback=OptT(ExtT('legacy_cb')), enable_callback=Bool),
+               self_type=ObjT(LRFC, _fileobj=Const(None), _start_byte=Const(None), _size=Const(None), _amount_read=Const(None),
+                              _callback=Const(None), _callback_enabled=Const(None)),
+               setup=init_setup, ensures=init_post, raises={'Exception': only_propagates})
+
 
 def register_ranged_downloader(R):
     """MultipartDownloader.download_file: a parts thread and an IO thread; it returns normally only if BOTH finished
